@@ -112,6 +112,10 @@ def route_variants(plans, tier):
 # PipeDrop_MC: one collection with two / three shards on distinct pchannels (no forwarding)
 CAT_D2 = [coll("c1", 101, ["sa_101v0", "sb_101v1"], ["ta_901v0", "tb_901v1"], 901)]
 CAT_D3 = [coll("c1", 101, ["sa_101v0", "sb_101v1", "sc_101v2"], ["ta_901v0", "tb_901v1", "tc_901v2"], 901)]
+# ... the extra partition p1 was created after the collection's replication started: the downstream reports it only when
+# asked again (GetPartitionInfo), so a shard learns its id lazily - or never, when it carries no row of it
+CAT_D2_LATE = [coll("c1", 101, ["sa_101v0", "sb_101v1"], ["ta_901v0", "tb_901v1"], 901, late=["p1"])]
+CAT_D3_LATE = [coll("c1", 101, ["sa_101v0", "sb_101v1", "sc_101v2"], ["ta_901v0", "tb_901v1", "tc_901v2"], 901, late=["p1"])]
 CAT_D2_DROPPED = [coll("c1", 101, ["sa_101v0", "sb_101v1"], ["ta_901v0", "tb_901v1"], 901, dropped=True)]
 
 
@@ -146,3 +150,15 @@ def kscripts(shape):
                       "msgs": ([{"k": "ins", "ts": 10 * k + 2, "p": "_default"}] if data else [])})
         res[s] = l
     return res
+
+
+def drop_variants(plans, tier):
+    """catalog variant of the PipeDrop plans that touch the extra partition: p1 is learned lazily (CAT_D2_LATE)"""
+    out = []
+    for p in plans:
+        out.append(p)
+        if p.get("src") in ("d2p", "d2pr", "d2q") and p.get("params", {}).get("catalog") == CAT_D2:
+            out.append(dict(p, plan=str(p["plan"]) + "-late", params=dict(p["params"], catalog=CAT_D2_LATE)))
+        if p.get("src") == "d3" and p.get("params", {}).get("catalog") == CAT_D3 and (tier == "thorough" or __import__("zlib").crc32(str(p["plan"]).encode()) % 2 == 0):
+            out.append(dict(p, plan=str(p["plan"]) + "-late", params=dict(p["params"], catalog=CAT_D3_LATE)))
+    return out
